@@ -199,7 +199,9 @@ class Constraints(object):
                                          k_genuine_vec[i],
                                          k_impostor_vec[i])
 
-    return triplets
+    # the neighbors were searched among the labeled points only: map the
+    # indices back to positions in the array given by the caller
+    return np.flatnonzero(known_labels_mask)[triplets]
 
   def _pairs(self, n_constraints, same_label=True, max_iter=10,
              random_state=np.random):
